@@ -387,3 +387,103 @@ def unit_parse(prop):
         return run_contract(prop, fx, contract(), [("", setup)], name="read_header_parse", fname="read_header#parse", to_case=tc, replay_module="rtc.c12")
     unit.__name__ = "read_header_parse"
     return unit
+
+
+# ------------------------------------------------------------------------------------------------------------- sphere_read_signal
+# The entry point read_signal dispatches to for SPHERE files: a path is opened once in binary mode and the open file handed to the same
+# function (callee contract = this contract); on a stream, read_header and then copy_samples are called once each, in that order, on THE
+# stream, copy_samples with exactly the header read_header returned and the caller's dtype (a 1-byte dtype means "raw codes", C12), both with
+# an IOError to raise on malformed input; what copy_samples returns is returned as it is (no cast, no reshape, warnings untouched).
+class _Stream:
+    def __init__(self, named):
+        self.named = named
+
+    def sym_getattr(self, attr, ev, node):
+        if attr == "name" and self.named:
+            return Opaque("STREAM_NAME", "str")
+        raise Outside(f"stream attribute .{attr}")
+
+
+def _srs_setup(kind):
+    def setup(ex, st):
+        rf = Opaque("PATH", "path") if kind == "path" else _Stream(kind == "named_stream")
+        st.env.update(rfilename=rf, dtype=Opaque("DTYPE", "dtype"), key=Opaque("KEY", "key"))
+        st.ghost.update(trace=[])
+        ex.ctx = dict(kind=kind, rf=rf)
+    return setup
+
+
+def contract_sphere_read_signal():
+    def tr(st, e):
+        st.ghost["trace"] = st.ghost["trace"] + [e]
+
+    def h_isinstance(ex, st, args, kwargs, node, ev):
+        obj, cls = args
+        if isinstance(cls, Opaque) and cls.term == "str":
+            return isinstance(obj, Opaque) and obj.kind == "path"
+        raise Outside("isinstance form")
+
+    def h_hasattr(ex, st, args, kwargs, node, ev):
+        obj, name = args
+        if name == "name" and isinstance(obj, _Stream):
+            return obj.named
+        raise Outside("hasattr form")
+
+    def h_open(ex, st, args, kwargs, node, ev):
+        ok = len(args) == 2 and args[0] is ex.ctx["rf"] and args[1] == "rb" and not kwargs
+        tr(st, ("open", ok))
+        return Opaque("OPENED_FILE", "file")
+
+    def h_self(ex, st, args, kwargs, node, ev):
+        tr(st, ("recurse", tuple(a.term if isinstance(a, Opaque) else a for a in args), tuple(sorted(kwargs))))
+        return Opaque("RESULT_OF_THE_CALL_ON_THE_OPEN_FILE", "array")
+
+    def h_ioerror(ex, st, args, kwargs, node, ev):
+        return Opaque(("IOError",), "exc")
+
+    def h_read_header(ex, st, args, kwargs, node, ev):
+        ok = len(args) == 2 and args[0] is ex.ctx["rf"] and isinstance(args[1], Opaque) and args[1].kind == "exc" and not kwargs
+        tr(st, ("read_header", ok))
+        return Opaque("HEADER", "header")
+
+    def h_copy_samples(ex, st, args, kwargs, node, ev):
+        ok = (len(args) == 4 and args[0] is ex.ctx["rf"] and isinstance(args[1], Opaque) and args[1].term == "HEADER" and args[2] is st.env["dtype"]
+              and isinstance(args[3], Opaque) and args[3].kind == "exc" and not kwargs)
+        tr(st, ("copy_samples", ok))
+        return Opaque("DATA", "array")
+
+    def ok(ev, res):
+        st, c = ev.st, ev.ex.ctx
+        t = st.ghost["trace"]
+        if c["kind"] == "path":
+            return t == [("open", True), ("recurse", ("OPENED_FILE", "DTYPE", "KEY"), ())] and isinstance(res, Opaque) and res.term == "RESULT_OF_THE_CALL_ON_THE_OPEN_FILE"
+        return t == [("read_header", True), ("copy_samples", True)] and isinstance(res, Opaque) and res.term == "DATA"
+
+    return Contract(
+        target="_sphere:sphere_read_signal", uses=["A-PYSEM", "A-IO-STREAM"],
+        consts={"OK": SpecFn(ok), "str": Opaque("str", "class")},
+        handlers={"isinstance": h_isinstance, "hasattr": h_hasattr, "open": h_open, "sphere_read_signal": h_self, "IOError": h_ioerror,
+                  "read_header": h_read_header, "copy_samples": h_copy_samples},
+        ensures=[("header_then_samples_on_the_same_stream_with_the_callers_dtype", "OK(result)")],
+    )
+
+
+def unit_sphere_read_signal(prop):
+    def unit(tier, known):
+        from contracts.registry import run_contract
+        from contracts import sphere as S
+
+        def tc(ob):
+            cs = list(S.to_case_header(ob) or [])
+            try:
+                import itertools
+                from rtc import c12
+                allc = list(itertools.islice(c12.enumerate_cases("quick", 0), 6000))
+                cs = [c for c in allc if c.get("kind") in ("dtype", "trunc")][:300] + cs
+            except Exception:
+                pass
+            return cs
+        return run_contract(prop, ("_sphere", "sphere_read_signal"), contract_sphere_read_signal(),
+                            [(k, _srs_setup(k)) for k in ("path", "named_stream", "anonymous_stream")], name="sphere_read_signal", to_case=tc, replay_module="rtc.c12")
+    unit.__name__ = "sphere_read_signal"
+    return unit
